@@ -143,12 +143,12 @@ class Interp(ExprMixin, StmtMixin, CallMixin, BuiltinMixin, HeapMixin, SpecMixin
     def choose(self, conds, label='', names=None):
         """Multi-way decision.  conds: list of (z3 Bool | bool).  Returns the
         chosen index; the chosen condition is added to the path condition."""
-        if self.spec_mode:
-            raise Unsupported('decision inside a specification expression (%s)' % label)
         conds = [simp_bool(c) for c in conds]
         trues = [i for i, c in enumerate(conds) if c is True]
         if trues:
             return trues[0]
+        if self.spec_mode:
+            raise Unsupported('decision inside a specification expression (%s)' % label)
         cand = [i for i, c in enumerate(conds) if c is not False]
         if not cand:
             raise Abort()
